@@ -13,6 +13,7 @@ GenNext ==
     \/ \E m \in msgs : Receive(m) /\ H([op |-> "receive", f |-> m.from, t |-> m.to, i |-> m.item, gs |-> m.gs])
     \/ \E m \in msgs : Absorb(m) /\ H([op |-> "receive", f |-> m.from, t |-> m.to, i |-> m.item, gs |-> m.gs])
     \/ \E m \in seen : Duplicate(m) /\ H([op |-> "dup", f |-> m.from, t |-> m.to, i |-> m.item])
+    \/ \E n \in Honest : FlashExpire(n) /\ H([op |-> "expire", n |-> n])
     \/ \E n \in Node, c \in Item : Pull(n, c) /\ H([op |-> "pull", n |-> n, c |-> c])
     \/ \E n \in Node, c \in Item : (Retry(n, c) \/ RetryDrop(n, c)) /\ H([op |-> "retry", n |-> n, c |-> c])
     \/ \E b \in Bad, t \in Node, i \in Item, v \in Node : \E k \in 1..6 :
